@@ -1,6 +1,6 @@
 (* C04 -- Serialiser enforces the size limit exactly and stays inside its buffers. *)
 From CoapV Require Import Base Header Packet WireSpec Encode Decode PacketOps Suite01
-  proofs.PWire proofs.PEnc proofs.PDec proofs.P01 UnsafeModel gen.UnsafeSites proofs.PUnsafe.
+  proofs.PWire proofs.PEnc proofs.PDec proofs.P01 UnsafeModel gen.UnsafeSites proofs.PUnsafe proofs.P01c.
 
 Theorem C04_limit_exact : forall p lim, pkt_wf p ->
   to_bytes_internal p lim =
@@ -30,6 +30,12 @@ Print Assumptions C04_no_panic.
 Theorem C04_unsafe_sites_in_bounds : forall env, sites_safe env UnsafeSites.blocks.
 Proof. apply sites_ok_sound. vm_compute. reflexivity. Qed.
 Print Assumptions C04_unsafe_sites_in_bounds.
+
+(* the model passes the suite-40 oracle on every packet state with an ordered option map (values of ANY length: the
+   over-long ones must be refused), every entry point and limit *)
+Theorem C04_model_passes_oracle : forall s mx lim p, rd_case40 s = Some (mx, lim, p) -> state_ok p -> verdict40 s (run40 s) = true.
+Proof. exact model_passes_oracle40. Qed.
+Print Assumptions C04_model_passes_oracle.
 
 Example C04_example :
   let p := mkPacket (mkHeader 64 (Request Get) 7) [] [(11, [repeat 1 20])] (repeat 2 1253) in
